@@ -92,6 +92,11 @@ def compare(source, opts=None, inputs=None, script_factory=None, strict_init=Non
     vs = [compare1(source, opts, inputs, script_factory, strict_init, decb_horizon, check_store, check_stop, vars_of_interest, {"str_past_end": w}) for w in ("clamp", "error")]
     if vs[0].kind == vs[1].kind and vs[0].kind in ("agree", "violation") and vs[0].symptom == vs[1].symptom:
         return vs[0]
+    if vs[0].kind == vs[1].kind == "violation":
+        # the translation deviates under either behaviour, only in a different way
+        w = vs[0]
+        w.detail = f"{w.detail} [if a slice past the end is an error instead: {vs[1].symptom}: {vs[1].detail}]"
+        return w
     return v
 
 
